@@ -100,3 +100,58 @@ Proof. vm_compute. reflexivity. Qed.
 (* the clamp matters: without it the unrepaired formula goes negative *)
 Example C13_raw_formula_goes_negative : mint_for_block_raw 1 bpy (2 * bpy) = -1.
 Proof. vm_compute. reflexivity. Qed.
+
+(* ---------------------------------------------------------------------------------------------
+   Tie to the code by translation + proof: the functions below are GENERATED on every run from /repo's
+   current Go source (translator/gen_gofuncs.go -> Gen/GoMint.v); the theorems say that the hand-written model the
+   property theorems above are about computes what the generated function computes, for all arguments. *)
+From Coq Require Import String.
+From JK Require Import Base.GoSem Gen.GoMint Proofs.GoTieMint.
+
+(* utils.GetMintForBlock is the model's emission schedule whenever the raw value fits int64 *)
+Theorem C13_code_tie_GetMintForBlock :
+  forall prev blocks decrease, blocks <> 0 -> in_int64 (mint_for_block_raw prev blocks decrease) = true ->
+    gen_GetMintForBlock prev blocks decrease = GVal (mint_for_block prev blocks decrease).
+Proof. exact gen_GetMintForBlock_model. Qed.
+Print Assumptions C13_code_tie_GetMintForBlock.
+
+(* keeper.BlockMint mints the model's emission, hands that same amount to the three split functions in the
+   order stakers, developer grants, storage stipend, stops at the first one that reports an error, and records
+   that same amount only after all three succeeded *)
+Theorem C13_code_tie_BlockMint :
+  forall acc p s ok_mint ok_staker ok_dev ok_stipend,
+    in_int64 (mint_for_block_raw (prev_of p s) bpy (mint_decrease p)) = true ->
+    gen_BlockMint (tokens_per_block p) (mint_decrease p)
+      (match m_last s with Some _ => true | None => false end) (match m_last s with Some m => m | None => 0 end)
+      ok_mint ok_staker ok_dev ok_stipend
+    = GVal (blockmint_events (r_emission (block_mint acc p s)) ok_mint ok_staker ok_dev ok_stipend).
+Proof. exact gen_BlockMint_model. Qed.
+Print Assumptions C13_code_tie_BlockMint.
+
+(* the split functions hand the bank the model's [share] of the emission (rounded down), nothing else *)
+Theorem C13_code_tie_split_functions :
+  forall e ratio ok x, BeginBlock.share64 ratio e = Some x -> 0 <= x ->
+    x = share ratio e /\
+    gen_mintStaker e ratio ok = GVal ([Ev "to-stakers"%string [x]], ok) /\
+    gen_mintStipend e ratio ok = GVal ([Ev "to-stipend"%string [x]], ok).
+Proof.
+  intros e ratio ok x Hx H0. split; [exact (share64_share ratio e x Hx)|].
+  rewrite gen_mintStaker_spec, gen_mintStipend_spec, Hx.
+  destruct (Z.ltb_spec x 0); [exfalso; apply (Z.lt_irrefl x); apply (Z.lt_le_trans _ 0); assumption|].
+  split; reflexivity.
+Qed.
+Print Assumptions C13_code_tie_split_functions.
+
+(* the model records a block exactly when each of its three transfers succeeds *)
+Theorem C13_code_tie_recorded_iff_all_transfers :
+  forall acc p s,
+    let e := r_emission (block_mint acc p s) in
+    let b0 := credit (m_bank s) (a_mod acc) e in
+    r_recorded (block_mint acc p s) = true <->
+    exists b1 b2 b3,
+      pay acc b0 (a_fee acc) (share (staker_ratio p) e) = Some b1 /\
+      pay acc b1 (a_dev acc) (share (dev_ratio p) e) = Some b2 /\
+      stipend_ok p = true /\
+      pay acc b2 (a_stip acc) (share (prov_ratio p) e) = Some b3.
+Proof. exact block_mint_recorded_iff. Qed.
+Print Assumptions C13_code_tie_recorded_iff_all_transfers.
